@@ -51,24 +51,25 @@ Section BuildTop.
   Variable depsf : rt -> str -> list str.
   Variable f : nat.
 
-  Lemma fields_loop_top l : forall st b v st' b' v',
-    fields_loop depsf f l st b v = ((st', b'), ROk v') -> top_serial v' = top_serial v.
+  Lemma fields_loop_top l : forall st b v err st' b' v',
+    fields_loop depsf f l st b v err = ((st', b'), ROk v') -> top_serial v' = top_serial v.
   Proof.
-    induction l as [|[n dp] l IH]; intros st b v st' b' v' H; cbn [fields_loop] in H.
-    - inversion H; reflexivity.
-    - destruct (resolve_dep depsf f st b dp) as [[st1 b1] [x|e]]; [|discriminate].
-      destruct (obj_set v n x) as [v1|e] eqn:O; [|discriminate].
-      rewrite (IH _ _ _ _ _ _ H). eapply obj_set_top; exact O.
+    induction l as [|[n dp] l IH]; intros st b v err st' b' v' H; cbn [fields_loop] in H.
+    - inversion H as [[E1 E2 E3]]. apply fin_ok in E3. destruct E3 as [_ ->]. reflexivity.
+    - destruct (resolve_dep depsf f st b dp) as [[st1 b1] [x|e]]; [|eapply IH; exact H].
+      destruct (obj_set v n x) as [v1|e] eqn:O; [|eapply IH; exact H].
+      rewrite (IH _ _ _ _ _ _ _ H). eapply obj_set_top; exact O.
   Qed.
 
-  Lemma calls_loop_top l : forall st b v st' b' v',
-    calls_loop depsf f l st b v = ((st', b'), ROk v') -> top_serial v' = top_serial v.
+  Lemma calls_loop_top l : forall st b v err st' b' v',
+    calls_loop depsf f l st b v err = ((st', b'), ROk v') -> top_serial v' = top_serial v.
   Proof.
-    induction l as [|c l IH]; intros st b v st' b' v' H; cbn [calls_loop] in H.
-    - inversion H; reflexivity.
-    - destruct (resolve_deps depsf f st b (rc_deps c)) as [[st1 b1] [x|e]]; [|discriminate].
-      destruct (obj_call v (rc_method c) x) as [v1|e] eqn:O; [|discriminate].
-      rewrite (IH _ _ _ _ _ _ H). eapply obj_call_top; exact O.
+    induction l as [|c l IH]; intros st b v err st' b' v' H; cbn [calls_loop] in H.
+    - inversion H as [[E1 E2 E3]]. apply fin_ok in E3. destruct E3 as [_ ->]. reflexivity.
+    - destruct (resolve_deps depsf f st b (rc_deps c)) as [[st1 b1] [x|e]]; [|eapply IH; exact H].
+      destruct (obj_call v (rc_method c) x) as [v1|e] eqn:O.
+      + rewrite (IH _ _ _ _ _ _ _ H). eapply obj_call_top; exact O.
+      + destruct (rc_wither c); [discriminate|eapply IH; exact H].
   Qed.
 
   (** decorators: the value is kept, or the result is a wrapper allocated during the loop *)
@@ -115,11 +116,11 @@ Section BuildTop.
     intros Hc H. unfold build in H.
     destruct (create depsf f d st b) as [[st1 b1] [v1|e]] eqn:C; [|discriminate].
     pose proof (create_top _ _ _ _ _ _ C) as T1. rewrite Hc in T1.
-    destruct (fields_loop depsf f (sd_fields d) st1 b1 v1) as [[st2 b2] [v2|e]] eqn:Fl; [|discriminate].
-    pose proof (fields_loop_top _ _ _ _ _ _ _ Fl) as T2.
+    destruct (fields_loop depsf f (sd_fields d) st1 b1 v1 None) as [[st2 b2] [v2|e]] eqn:Fl; [|discriminate].
+    pose proof (fields_loop_top _ _ _ _ _ _ _ _ Fl) as T2.
     pose proof (gf_serial _ _ (fields_loop_frame' _ _ _ _ _ _ _ _ _ Fl)) as L2.
-    destruct (calls_loop depsf f (sd_calls d) st2 b2 v2) as [[st3 b3] [v3|e]] eqn:Cl; [|discriminate].
-    pose proof (calls_loop_top _ _ _ _ _ _ _ Cl) as T3.
+    destruct (calls_loop depsf f (sd_calls d) st2 b2 v2 None) as [[st3 b3] [v3|e]] eqn:Cl; [|discriminate].
+    pose proof (calls_loop_top _ _ _ _ _ _ _ _ Cl) as T3.
     pose proof (gf_serial _ _ (calls_loop_frame' _ _ _ _ _ _ _ _ _ Cl)) as L3.
     pose proof (gf_serial _ _ (decs_loop_frame' _ _ _ _ _ _ _ _ _ _ _ H)) as L4.
     pose proof (gf_serial _ _ (create_frame' _ _ _ _ _ _ _ _ C)) as L1.
@@ -143,11 +144,11 @@ Section BuildTop.
       - destruct T1 as [-> ->]. apply Hv; reflexivity.
       - destruct T1 as [-> ->]. intros sr E. inversion E; subst. lia.
       - destruct T1. }
-    destruct (fields_loop depsf f (sd_fields d) st1 b1 v1) as [[st2 b2] [v2|e]] eqn:Fl; [|discriminate].
-    pose proof (fields_loop_top _ _ _ _ _ _ _ Fl) as T2.
+    destruct (fields_loop depsf f (sd_fields d) st1 b1 v1 None) as [[st2 b2] [v2|e]] eqn:Fl; [|discriminate].
+    pose proof (fields_loop_top _ _ _ _ _ _ _ _ Fl) as T2.
     pose proof (gf_serial _ _ (fields_loop_frame' _ _ _ _ _ _ _ _ _ Fl)) as L2.
-    destruct (calls_loop depsf f (sd_calls d) st2 b2 v2) as [[st3 b3] [v3|e]] eqn:Cl; [|discriminate].
-    pose proof (calls_loop_top _ _ _ _ _ _ _ Cl) as T3.
+    destruct (calls_loop depsf f (sd_calls d) st2 b2 v2 None) as [[st3 b3] [v3|e]] eqn:Cl; [|discriminate].
+    pose proof (calls_loop_top _ _ _ _ _ _ _ _ Cl) as T3.
     pose proof (gf_serial _ _ (calls_loop_frame' _ _ _ _ _ _ _ _ _ Cl)) as L3.
     pose proof (gf_serial _ _ (decs_loop_frame' _ _ _ _ _ _ _ _ _ _ _ H)) as L4.
     destruct (decs_loop_top _ _ _ _ _ _ _ _ _ H) as [E|Fr].
@@ -198,36 +199,35 @@ Section GenInv.
         + inversion H; subst. exact R1.
     Qed.
 
-    Lemma deps_loop_R l : forall st b acc st' b' r, gframe st0 st -> deps_loop depsf f l st b acc = ((st', b'), r) -> R st b st' b'.
+    Lemma deps_loop_R l : forall st b acc err st' b' r, gframe st0 st -> deps_loop depsf f l st b acc err = ((st', b'), r) -> R st b st' b'.
     Proof.
-      induction l as [|d l IH]; intros st b acc st' b' r F H; cbn [deps_loop] in H.
+      induction l as [|d l IH]; intros st b acc err st' b' r F H; cbn [deps_loop] in H.
       - inversion H; subst. apply R_refl.
-      - destruct (resolve_dep depsf f st b d) as [[st1 b1] [v|e]] eqn:G; pose proof (Hd _ _ _ _ _ _ F G) as R1.
-        + eapply R_trans; [exact R1|]. eapply IH; [|exact H].
-          eapply gframe_trans; [exact F|eapply resolve_dep_frame; exact G].
-        + inversion H; subst. exact R1.
+      - destruct (resolve_dep depsf f st b d) as [[st1 b1] [v|e]] eqn:G; pose proof (Hd _ _ _ _ _ _ F G) as R1;
+          (eapply R_trans; [exact R1|]; eapply IH; [|exact H];
+           eapply gframe_trans; [exact F|eapply resolve_dep_frame; exact G]).
     Qed.
 
-    Lemma fields_loop_R l : forall st b v st' b' r, gframe st0 st -> fields_loop depsf f l st b v = ((st', b'), r) -> R st b st' b'.
+    Lemma fields_loop_R l : forall st b v err st' b' r, gframe st0 st -> fields_loop depsf f l st b v err = ((st', b'), r) -> R st b st' b'.
     Proof.
-      induction l as [|[n dp] l IH]; intros st b v st' b' r F H; cbn [fields_loop] in H.
+      induction l as [|[n dp] l IH]; intros st b v err st' b' r F H; cbn [fields_loop] in H.
       - inversion H; subst. apply R_refl.
-      - destruct (resolve_dep depsf f st b dp) as [[st1 b1] [x|e]] eqn:G; pose proof (Hd _ _ _ _ _ _ F G) as R1.
-        + destruct (obj_set v n x) as [v'|e]; [|inversion H; subst; exact R1].
-          eapply R_trans; [exact R1|]. eapply IH; [|exact H].
-          eapply gframe_trans; [exact F|eapply resolve_dep_frame; exact G].
-        + inversion H; subst. exact R1.
+      - destruct (resolve_dep depsf f st b dp) as [[st1 b1] [x|e]] eqn:G; pose proof (Hd _ _ _ _ _ _ F G) as R1;
+          pose proof (gframe_trans _ _ _ F (resolve_dep_frame _ _ _ _ _ _ _ _ G)) as F1.
+        + destruct (obj_set v n x) as [v'|e]; (eapply R_trans; [exact R1|]; eapply IH; [exact F1|exact H]).
+        + eapply R_trans; [exact R1|]. eapply IH; [exact F1|exact H].
     Qed.
 
-    Lemma calls_loop_R l : forall st b v st' b' r, gframe st0 st -> calls_loop depsf f l st b v = ((st', b'), r) -> R st b st' b'.
+    Lemma calls_loop_R l : forall st b v err st' b' r, gframe st0 st -> calls_loop depsf f l st b v err = ((st', b'), r) -> R st b st' b'.
     Proof.
-      induction l as [|c l IH]; intros st b v st' b' r F H; cbn [calls_loop] in H.
+      induction l as [|c l IH]; intros st b v err st' b' r F H; cbn [calls_loop] in H.
       - inversion H; subst. apply R_refl.
-      - destruct (resolve_deps depsf f st b (rc_deps c)) as [[st1 b1] [x|e]] eqn:G; pose proof (Hds _ _ _ _ _ _ F G) as R1.
-        + destruct (obj_call v (rc_method c) x) as [v'|e]; [|inversion H; subst; exact R1].
-          eapply R_trans; [exact R1|]. eapply IH; [|exact H].
-          eapply gframe_trans; [exact F|eapply resolve_deps_frame; exact G].
-        + inversion H; subst. exact R1.
+      - destruct (resolve_deps depsf f st b (rc_deps c)) as [[st1 b1] [x|e]] eqn:G; pose proof (Hds _ _ _ _ _ _ F G) as R1;
+          pose proof (gframe_trans _ _ _ F (resolve_deps_frame _ _ _ _ _ _ _ _ G)) as F1.
+        + destruct (obj_call v (rc_method c) x) as [v'|e]; [eapply R_trans; [exact R1|]; eapply IH; [exact F1|exact H]|].
+          destruct (rc_wither c); [inversion H; subst; exact R1|].
+          eapply R_trans; [exact R1|]. eapply IH; [exact F1|exact H].
+        + eapply R_trans; [exact R1|]. eapply IH; [exact F1|exact H].
     Qed.
 
     Lemma decs_loop_R d id l : forall st b v st' b' r, gframe st0 st -> decs_loop depsf f d id l st b v = ((st', b'), r) -> R st b st' b'.
@@ -261,11 +261,11 @@ Section GenInv.
       destruct (create depsf f d st b) as [[st1 b1] [v1|e]] eqn:C; pose proof (create_R _ _ _ _ _ _ F C) as R1;
         [|inversion H; subst; exact R1].
       pose proof (gframe_trans _ _ _ F (create_frame' _ _ _ _ _ _ _ _ C)) as F1.
-      destruct (fields_loop depsf f (sd_fields d) st1 b1 v1) as [[st2 b2] [v2|e]] eqn:Fl;
-        pose proof (R_trans _ _ _ _ _ _ R1 (fields_loop_R _ _ _ _ _ _ _ F1 Fl)) as R2; [|inversion H; subst; exact R2].
+      destruct (fields_loop depsf f (sd_fields d) st1 b1 v1 None) as [[st2 b2] [v2|e]] eqn:Fl;
+        pose proof (R_trans _ _ _ _ _ _ R1 (fields_loop_R _ _ _ _ _ _ _ _ F1 Fl)) as R2; [|inversion H; subst; exact R2].
       pose proof (gframe_trans _ _ _ F1 (fields_loop_frame' _ _ _ _ _ _ _ _ _ Fl)) as F2.
-      destruct (calls_loop depsf f (sd_calls d) st2 b2 v2) as [[st3 b3] [v3|e]] eqn:Cl;
-        pose proof (R_trans _ _ _ _ _ _ R2 (calls_loop_R _ _ _ _ _ _ _ F2 Cl)) as R3; [|inversion H; subst; exact R3].
+      destruct (calls_loop depsf f (sd_calls d) st2 b2 v2 None) as [[st3 b3] [v3|e]] eqn:Cl;
+        pose proof (R_trans _ _ _ _ _ _ R2 (calls_loop_R _ _ _ _ _ _ _ _ F2 Cl)) as R3; [|inversion H; subst; exact R3].
       pose proof (gframe_trans _ _ _ F2 (calls_loop_frame' _ _ _ _ _ _ _ _ _ Cl)) as F3.
       eapply R_trans; [exact R3|eapply decs_loop_R; [exact F3|exact H]].
     Qed.
